@@ -790,3 +790,24 @@ theorem init_le_10 : (∀ x, (Gen.wheel30Init.getD x (0, 0)).1 ≤ 10) ∧ (∀ 
       rw [List.getD_eq_getElem?_getD, hn]; decide
 
 end Ps.Wheel
+
+namespace Ps.Wheel
+
+
+/-- every store of an unrolled loop of EratSmall uses an offset ≤ the loop's maxOffset, componentwise
+    (sievingPrime·A + B with A ≤ A_max, B ≤ B_max), and maxOffset is the offset of the last store -/
+theorem unrolled_offsets_ok : ∀ u ∈ Gen.eratSmallUnrolled,
+    (∀ st ∈ u.2.2.2.2.2, st.1 ≤ u.2.1 ∧ st.2.1 ≤ u.2.2.1 ∧ st.2.2 < 8) ∧ u.2.2.2.2.2.length = 8 := by decide +kernel
+
+/-- **EratSmall unrolled loop in bounds**: the loop runs while i < limit = max(sieveSize, maxOffset) - maxOffset; then each of the
+    8 stores sieve[i + sievingPrime·A + B] addresses a byte inside [0, sieveSize) -/
+theorem unrolled_in_bounds (u : Nat × Nat × Nat × Nat × Nat × List (Nat × Nat × Nat)) (hu : u ∈ Gen.eratSmallUnrolled)
+    (sp i sieveSize : Nat) (hi : i < max sieveSize (sp * u.2.1 + u.2.2.1) - (sp * u.2.1 + u.2.2.1)) :
+    ∀ st ∈ u.2.2.2.2.2, i + sp * st.1 + st.2.1 < sieveSize := by
+  intro st hst
+  obtain ⟨h1, h2, _⟩ := (unrolled_offsets_ok u hu).1 st hst
+  have : sp * st.1 ≤ sp * u.2.1 := Nat.mul_le_mul_left sp h1
+  omega
+
+
+end Ps.Wheel
